@@ -43,9 +43,10 @@ VARIABLES
                                             \*   sequence, unused_sequences, recent_sequences            (observable)
   last, released,                           \* sequence allocator: last sequence handed out; sequences published as unused (observable)
   pc, res, kind, parg,                      \* per writer: control state, returned value, inputs          (observable)
-  match, att, loc, dso, uo, dropped, dev,   \* per writer locals: Put's captured matchRev, attempts, computed document,
+  match, att, loc, dso, uo, dropped, dev, top,   \* per writer locals: Put's captured matchRev, attempts, computed document,
                                             \*   updateAndReturnDoc's docSequence / unusedSequences; sequences lost by ErrDropsUnused;
-                                            \*   names of the deviations that fired in this behaviour            (hidden)
+                                            \*   names of the deviations that fired in this behaviour; the commit with the highest sequence so
+                                            \*   far [seq, rev] - what the change cache keeps for the document   (hidden)
   feed, quiesced,                           \* changes feed for the document read after quiescence         (observable)
   docSeqs, onDoc, initSeq,                  \* ghosts: document sequence after every change of cas; sequences ever carried by
                                             \*   the document (sequence or unused_sequences); sequences of the initial revisions
@@ -55,7 +56,7 @@ conf   == <<allow, initLen, initTomb, ws>>
 bucket == <<cas, tree, cur, seq, unused, recent>>
 alloc  == <<last, released>>
 obsw   == <<pc, res, kind, parg>>
-hidden == <<match, att, loc, dso, uo, dropped, dev>>
+hidden == <<match, att, loc, dso, uo, dropped, dev, top>>
 fd     == <<feed, quiesced>>
 ghost  == <<docSeqs, onDoc, initSeq>>
 impl   == <<bucket, alloc, obsw, hidden, fd>>
@@ -96,7 +97,7 @@ Init ==
   /\ pc = [w \in Writers |-> "idle"] /\ res = [w \in Writers |-> NoRes]
   /\ kind = [w \in Writers |-> ""] /\ parg = [w \in Writers |-> 0]
   /\ match = [w \in Writers |-> 0] /\ att = [w \in Writers |-> 0] /\ loc = [w \in Writers |-> NoLoc]
-  /\ dso = [w \in Writers |-> 0] /\ uo = [w \in Writers |-> <<>>] /\ dropped = {} /\ dev = {}
+  /\ dso = [w \in Writers |-> 0] /\ uo = [w \in Writers |-> <<>>] /\ dropped = {} /\ dev = {} /\ top = [seq |-> initLen, rev |-> initLen]
   /\ feed = <<>> /\ quiesced = FALSE
   /\ docSeqs = <<>> /\ onDoc = 1..initLen /\ initSeq = [i \in 1..initLen |-> i]
   /\ hist = <<>>
@@ -149,17 +150,18 @@ ImplCompute(w) ==
 ImplBegin(w, k, p) ==
   /\ kind' = [kind EXCEPT ![w] = k] /\ parg' = [parg EXCEPT ![w] = p] /\ match' = [match EXCEPT ![w] = p]
   /\ pc' = [pc EXCEPT ![w] = "begun"]
-  /\ UNCHANGED <<bucket, alloc, res, att, loc, dso, uo, dropped, dev, fd>>
+  /\ UNCHANGED <<bucket, alloc, res, att, loc, dso, uo, dropped, dev, top, fd>>
 
 ImplReadAndCompute(w) ==
   /\ att' = [att EXCEPT ![w] = 1]
   /\ ImplCompute(w)
-  /\ UNCHANGED <<bucket, released, res, kind, parg, fd>>
+  /\ UNCHANGED <<bucket, released, res, kind, parg, top, fd>>
 
 Commit(w) ==
   /\ cas' = cas + 1 /\ tree' = loc[w].tree /\ cur' = loc[w].cur /\ seq' = loc[w].seq
   /\ unused' = loc[w].unused /\ recent' = loc[w].recent
   /\ pc' = [pc EXCEPT ![w] = "committed"]
+  /\ top' = (IF loc[w].seq > top.seq THEN [seq |-> loc[w].seq, rev |-> loc[w].cur] ELSE top)
   /\ UNCHANGED <<alloc, res, kind, parg, match, att, loc, dso, uo, dropped, fd>>
 ImplCasWrite(w) ==
   LET nowTomb == cas > 0 /\ tree[cur].d IN
@@ -167,23 +169,27 @@ ImplCasWrite(w) ==
   ELSE IF loc[w].readTomb /\ ~loc[w].tomb /\ nowTomb
        THEN Commit(w) /\ dev' = dev \cup {"ResurrectNoCas"}                       \* WriteResurrectionWithXattrs: no CAS
   ELSE IF loc[w].readLive /\ loc[w].tomb /\ nowTomb
-       THEN /\ pc' = [pc EXCEPT ![w] = "errored"] /\ dev' = dev \cup {"DeleteRaceError"}   \* Rosmar: MissingError, not retried
-            /\ UNCHANGED <<bucket, alloc, res, kind, parg, match, att, loc, dso, uo, dropped, fd>>
+       THEN /\ pc' = [pc EXCEPT ![w] = "errored"] /\ dev' = dev \cup {"DeleteRaceError"}   \* Rosmar: MissingError, not retried;
+            /\ released' = released \cup ({dso[w]} \ {0}) \cup Range(uo[w])              \*   the call returns through the release-on-error block
+            /\ UNCHANGED <<bucket, last, res, kind, parg, match, att, loc, dso, uo, dropped, top, fd>>
   ELSE /\ att' = [att EXCEPT ![w] = att[w] + 1]
        /\ ImplCompute(w)
-       /\ UNCHANGED <<bucket, released, res, kind, parg, fd>>
+       /\ UNCHANGED <<bucket, released, res, kind, parg, top, fd>>
 
 ImplAck(w) ==
   /\ IF pc[w] = "committed"
      THEN /\ res' = [res EXCEPT ![w] = [cls |-> "ok", rev |-> W(w), seq |-> loc[w].seq]]
           /\ UNCHANGED released
-     ELSE /\ res' = [res EXCEPT ![w] = [cls |-> (IF pc[w] = "failed" THEN "conflict" ELSE "error"), rev |-> 0, seq |-> 0]]
+     ELSE IF pc[w] = "failed"
+     THEN /\ res' = [res EXCEPT ![w] = [cls |-> "conflict", rev |-> 0, seq |-> 0]]
           /\ released' = released \cup ({dso[w]} \ {0}) \cup Range(uo[w])      \* release-on-error block
+     ELSE /\ res' = [res EXCEPT ![w] = [cls |-> "error", rev |-> 0, seq |-> 0]]
+          /\ UNCHANGED released
   /\ pc' = [pc EXCEPT ![w] = "done"]
   /\ UNCHANGED <<bucket, last, kind, parg, hidden, fd>>
 
 ImplQuiesce ==
-  /\ feed' = (IF cas = 0 THEN <<>> ELSE <<[seq |-> seq, rev |-> cur]>>)
+  /\ feed' = (IF cas = 0 THEN <<>> ELSE <<top>>)      \* the cache keeps, per document, the change with the highest sequence
   /\ quiesced' = TRUE
   /\ UNCHANGED <<bucket, alloc, obsw, hidden>>
 
@@ -273,6 +279,7 @@ M_OwnSequence          == NoResurrect => OwnSequence
 M_OneChildPerParent    == NoResurrect => OneChildPerParent
 M_LosersLeaveNoTrace   == NoResurrect => LosersLeaveNoTrace
 M_RefusalsAreConflicts == ("DeleteRaceError" \notin dev) => RefusalsAreConflicts
+M_FeedAnnouncesFinal   == NoResurrect => FeedAnnouncesFinal
 M_SeqSane              == NoResurrect => SeqSane
 M_Accounted            == NoResurrect => AccountedModuloDrop
 =============================================================================
